@@ -131,7 +131,8 @@ def make_cases(rng, kn, n, autosave_off_share=0.25):
     cases = []
     for _ in range(n):
         kind = mgmt.KINDS[kn].with_(adapter=True, watcher=rng.choice([0, 1, 2]))
-        g = mgmt.Gen(rng, kind, W)
+        # remove_policies(get_policy()) - the batch IS the live list - on the kinds whose histories the model follows for it
+        g = mgmt.Gen(rng, kind, W if kind.prio else dict(W, alias_remove=0.4))
         rows = g.rows(rng.randint(0, 6))
         ops = []
         off = rng.random() < autosave_off_share
